@@ -43,7 +43,21 @@ thread_local! {
 
 #[allow(dead_code)]
 fn reset_tick() {
+    TOCK.with(|t| t.set(0));
     TICK.with(|t| t.set(0));
+}
+
+thread_local! {
+    static TOCK: std::cell::Cell<i32> = const { std::cell::Cell::new(0) };
+}
+
+/// Counts evaluations of a keyframe value expression (reset together with `tick`).
+#[allow(dead_code)]
+fn tock() -> i32 {
+    TOCK.with(|t| {
+        t.set(t.get() + 1);
+        t.get()
+    })
 }
 
 #[allow(dead_code)]
